@@ -707,28 +707,94 @@ func errorTexts(leaf *node, m *message, u string, firstQ int) []string {
 // ------------------------------------------------------------ the system
 
 type system struct {
-	tree    *node
-	leaves  []*node
-	filters []*node
-	m       *martianhttp.Modifier
-	reqmod  martian.RequestModifier
-	resmod  martian.ResponseModifier
-	vh      *verify.Handler
-	rh      *verify.ResetHandler
-	reqv    verify.RequestVerifier
-	resv    verify.ResponseVerifier
-	mu      sync.Mutex
-	texts   map[string]string // error text -> "v:mid" / "v:-"
-	gate    *gate
-	gateID  int
-	front   byte   // 0: none; c, m, n: the proxy's API front (servemux filter + api.Forwarder) ahead of the tree
-	apiHost string // host:port the forwarder rewrites to
+	tree     *node
+	leaves   []*node
+	filters  []*node
+	m        *martianhttp.Modifier
+	reqmod   martian.RequestModifier
+	resmod   martian.ResponseModifier
+	vh       *verify.Handler
+	rh       *verify.ResetHandler
+	reqv     verify.RequestVerifier
+	resv     verify.ResponseVerifier
+	mu       sync.Mutex
+	texts    map[string]string // error text -> "v:mid" / "v:-"
+	gate     *gate
+	gateID   int
+	oldTrees []*node // configurations replaced since (only to name the verifier of a stale "parsing failed")
+	front    byte    // 0: none; c, m, n: the proxy's API front (servemux filter + api.Forwarder) ahead of the tree
+	apiHost  string  // host:port the forwarder rewrites to
 }
 
 func (s *system) close() {
 	if s != nil && s.gate != nil {
 		gates.Delete(s.gateID)
 	}
+}
+
+// adopt makes tree the configured one: its leaves and filters join the sets
+// the per-message tables and the error-text table are computed over (the
+// sets only grow, so that an error of a verifier that should be gone is still
+// recognised), s.tree is what the request walk (firstQueryLeaf) follows.
+func (s *system) adopt(tree *node) {
+	if s.tree != nil && s.tree != tree {
+		s.oldTrees = append(s.oldTrees, s.tree)
+	}
+	s.tree = tree
+	tree.walk(func(n *node) {
+		switch n.kind {
+		case 'L':
+			for _, l := range s.leaves {
+				if l.id == n.id && l.typ == n.typ {
+					return
+				}
+			}
+			s.leaves = append(s.leaves, n)
+			if n.typ == 'p' {
+				pu := &url.URL{Path: fmt.Sprintf("/p%d", n.id)}
+				switch n.id % 3 {
+				case 2:
+					pu.Scheme = "https"
+				case 0:
+					pu.Host = "h.example"
+				}
+				s.mu.Lock()
+				s.texts[fmt.Sprintf("request(%s): pingback never occurred", pu.String())] = fmt.Sprintf("%d:-", n.id)
+				s.mu.Unlock()
+			}
+		case 'F':
+			for _, f := range s.filters {
+				if f.id == n.id && f.typ == n.typ {
+					return
+				}
+			}
+			s.filters = append(s.filters, n)
+		}
+	})
+}
+
+func hasGate(tree *node) bool {
+	g := false
+	tree.walk(func(n *node) {
+		if n.kind == 'W' {
+			g = true
+		}
+	})
+	return g
+}
+
+// reconfigure POSTs a new configuration to martianhttp.Modifier (directly, or
+// as body of an exchange through the proxy when via != nil).
+func (s *system) reconfigure(tree *node, post func(body []byte) int) int {
+	body, err := json.Marshal(tree.toJSON())
+	if err != nil {
+		return -1
+	}
+	code := post(body)
+	if code == 200 {
+		s.adopt(tree)
+	}
+	return code
 }
 
 func newSystem(tree *node, direct bool) (*system, string) {
@@ -867,13 +933,15 @@ func decodeVerify(rec *httptest.ResponseRecorder) ([]string, string) {
 // server's own host:port (3).  The request goes through the front and the
 // tree, the API handler runs, the answer goes back through the tree.  Neither
 // may be counted by any verifier.
-func (s *system) apiCall(op string, idx int) string {
+func (s *system) apiCall(op string, idx int, body []byte) string {
 	if s.front == 0 || len(op) != 3 || (s.front == 'c' && op[2] == '3') {
 		return ""
 	}
 	var pth, meth string
 	var h http.Handler
 	switch op[1] {
+	case 'P':
+		pth, meth, h = "/configure", "POST", s.m
 	case 'Q':
 		pth, meth, h = "/verify", "GET", s.vh
 	case 'R':
@@ -895,6 +963,10 @@ func (s *system) apiCall(op string, idx int) string {
 		return ""
 	}
 	req := &http.Request{Method: meth, URL: u, Host: u.Host, Header: http.Header{}, Proto: "HTTP/1.1", ProtoMajor: 1, ProtoMinor: 1}
+	if body != nil {
+		req.Body = io.NopCloser(bytes.NewReader(body))
+		req.ContentLength = int64(len(body))
+	}
 	post := fmt.Sprintf("http://%s%s?n=%d", s.apiHost, pth, idx)
 	register := func(mm *message) {
 		s.mu.Lock()
@@ -994,6 +1066,9 @@ func (s *system) bits(m *message, req *http.Request, res *http.Response) string 
 	firstQ := -1
 	if m.kind == 'q' {
 		firstQ = firstQueryLeaf(s.tree, conds)
+		for i := len(s.oldTrees) - 1; i >= 0 && firstQ < 0; i-- {
+			firstQ = firstQueryLeaf(s.oldTrees[i], conds)
+		}
 	}
 	s.mu.Lock()
 	for _, l := range s.leaves {
@@ -1171,11 +1246,51 @@ func runSeq(in []string) (out []string) {
 		op := in[i]
 		switch {
 		case len(op) == 3 && op[0] == 'A':
-			t := s.apiCall(op, i)
+			t := s.apiCall(op, i, nil)
 			if t == "" {
 				return []string{"BADCASE"}
 			}
 			out = append(out, t)
+		case op == "PX":
+			// a configuration martianhttp must reject: nothing may change
+			if s.m == nil {
+				return []string{"BADCASE"}
+			}
+			rec := httptest.NewRecorder()
+			s.m.ServeHTTP(rec, httptest.NewRequest("POST", "http://martian.proxy/configure", strings.NewReader(`{"nosuch.Modifier":{}}`)))
+			out = append(out, fmt.Sprintf("X%d=%d", i, rec.Code))
+		case len(op) > 3 && op[:2] == "AP" && (op[2] == '2' || op[2] == '3'):
+			// reconfiguration through the proxy
+			nt, err := parseTree(op[3:])
+			if err != nil || hasGate(nt) || s.m == nil {
+				return []string{"BADCASE"}
+			}
+			var tok string
+			code := s.reconfigure(nt, func(body []byte) int {
+				tok = s.apiCall(op[:3], i, body)
+				if !strings.HasPrefix(tok, "X") {
+					return -1
+				}
+				c, _ := strconv.Atoi(tok[strings.Index(tok, "=")+1:])
+				return c
+			})
+			_ = code
+			if tok == "" {
+				return []string{"BADCASE"}
+			}
+			out = append(out, tok)
+		case len(op) > 1 && op[0] == 'P':
+			// reconfiguration: POST straight to martianhttp.Modifier
+			nt, err := parseTree(op[1:])
+			if err != nil || hasGate(nt) || s.m == nil {
+				return []string{"BADCASE"}
+			}
+			code := s.reconfigure(nt, func(body []byte) int {
+				rec := httptest.NewRecorder()
+				s.m.ServeHTTP(rec, httptest.NewRequest("POST", "http://martian.proxy/configure", bytes.NewReader(body)))
+				return rec.Code
+			})
+			out = append(out, fmt.Sprintf("X%d=%d", i, code))
 		case strings.HasPrefix(op, "XR:") || strings.HasPrefix(op, "XQ:"):
 			t := s.refused(op, i)
 			if t == "" {
